@@ -1,4 +1,5 @@
 """C12 — multi-line string literals keep their value (structural clauses)."""
+import re
 from facts import norm, Origins
 from progress import dominating_variant_facts, bfs_path, bfs_cycle
 from table import canon_place
@@ -185,7 +186,7 @@ def check_c12(prog, rep, tier, cfg):
             rep.check("get_content(" in a[1] and "get_token_mut(" in a[1] and "get_token_mut(" in a[2] and a[2].endswith(".1"), R, "rewrite(this-token-content,this-token-fmt)",
                       "try_rewrite_string is not called with this token's content and this token's formatting data: %s" % a[1:3], instance={"content": "tok.get_content()", "indent": "fmt of the same token"})
             # base indentation = leading blanks of the last line of this literal
-            rep.check("count_leading_whitespace(" in a[3] and "last(lines(get_content(" in a[3], R, "base=leading-blanks-of-last-line",
+            rep.check("count_leading_whitespace(" in a[3] and re.search(r"last\((lines|lines_custom)\(get_content\(", a[3]) is not None, R, "base=leading-blanks-of-last-line",
                       "base indentation is not last_line[0..count_leading_whitespace(last_line)]: %s" % a[3])
     # ---------------------------------------------------------------- C12.c
     skip_discipline(prog, rep, "C12.c")
@@ -251,6 +252,21 @@ def check_c12(prog, rep, tier, cfg):
     rep.check(okm, "C12.f", "one-StringFormatter", "StringFormatter is constructed %d times" % len(mk), instance={"constructed": len(mk)})
     # ---------------------------------------------------------------- C12.e terminator sets agree
     R = "C12.e"
+    # every place of the string pass that cuts the literal into lines uses the splitter that knows all three terminators: std's
+    # `str::lines` / `split('\n')` do not end a line at a lone CR, so a CR-only literal would have no `last line` (its closing quotes are
+    # never found at the start of one) and is left as it is
+    STD_SPLITTERS = ("core::str::lines", "core::str::split", "core::str::rsplit", "core::str::split_terminator", "core::str::split_inclusive", "core::str::rsplit_once", "core::str::split_once")
+    sfam = [x for x in prog.bodies.values() if x.npath.startswith(SF) and "lines_custom" not in x.npath]
+    cutters = {}
+    for x in sfam:
+        for c in x.calls():
+            cal = c.callee or ""
+            if cal in STD_SPLITTERS or norm(c.t.get("resolved") or cal) == MS + "lines_custom":
+                cutters.setdefault(cal.split("::")[-1], []).append(c)
+    stdc = sorted(k for k in cutters if k != "lines_custom")
+    rep.check("lines_custom" in cutters and not stdc, R, "one-line-splitter", "the multi-line string pass cuts the literal into lines with %s besides lines_custom: a literal whose lines end in a lone CR is "
+              "not seen as lines there (its closing quotes' indentation is never found and it is not re-indented)" % stdc,
+              where=(cutters[stdc[0]][0].where() if stdc else None), instance={"splitters": {k: len(v) for k, v in sorted(cutters.items())}})
     from lexer_rules import consts_in
     lcs = [x for x in prog.bodies.values() if x.npath.startswith(MS + "lines_custom::{closure#0}")]
     tl = prog.body("pasfmt_core::defaults::lexer::text_literal")
